@@ -74,6 +74,14 @@ Definition decl (op : Z) (ps : list Z) : option (Z * tree) :=
   | 115 => Some (glwe_rotate_tmp_bytes fam n, tree_glwe_rotate_assign fam n (inf ps 2 n))
   | 116 => let r := inf ps 2 n in let a := inf ps 8 n in
            Some (glwe_mul_const_tmp_bytes fam n r a (q 14%nat), tree_glwe_mul_const fam n r a (q 14%nat) (q 15%nat))
+  | 120 => let k := inf ps 2 n in Some (gglwe_prepare_tmp_bytes fam n k, tree_gglwe_prepare fam n k)
+  | 121 => let g := inf ps 2 n in Some (ggsw_prepare_tmp_bytes fam n g, tree_ggsw_prepare fam n g)
+  | 122 => let r := inf ps 2 n in let a := inf ps 8 n in let k := inf ps 14 n in
+           Some (gglwe_keyswitch_tmp_bytes fam n r a k, tree_gglwe_keyswitch fam n r a k)
+  | 123 => let r := inf ps 2 n in let a := inf ps 8 n in let g := inf ps 14 n in
+           Some (gglwe_external_product_tmp_bytes fam n r a g, tree_gglwe_external_product fam n r a g)
+  | 124 => let r := inf ps 2 n in let a := inf ps 8 n in let g := inf ps 14 n in
+           Some (ggsw_external_product_tmp_bytes fam n r a g, tree_ggsw_external_product fam n r a g)
   | _ => None
   end.
 
